@@ -161,6 +161,27 @@ def run(ctx):
   ctx.check(ok, 'C13.metadata', construct(dec), 'the original-class substitution is used exactly when no registered methods need overriding',
             'the choice between plain and substituting metaclass call changed', dec.loc(), instance='no-overrides')
 
+  method_detection(ctx, 'C13.method-detection')
+  inverse_lookup(ctx, 'C13.lookup')
+
+  # ---- C13.interactive
+  im = ctx.func('config.interactive_mode')
+  g3 = prog.cfg(im)
+  acq = [n for n in g3.live_nodes() if any(prog.resolve_call(im, c) == 'config.enter_interactive_mode' for c in calls_of_node(n))]
+  rel = [n for n in g3.live_nodes() if any(prog.resolve_call(im, c) == 'config.exit_interactive_mode' for c in calls_of_node(n))]
+  leaks = pair_leaks(g3, [n.id for n in acq], [n.id for n in rel]) if acq else [(None, 'entry', [])]
+  ctx.check(not leaks and acq, 'C13.interactive', construct(im), 'interactive mode is switched off on every exit of the block',
+            'interactive mode stays on when the block exits by %s' % (leaks[0][1] if leaks else ''), im.loc(), sites=len(g3.live_nodes()),
+            path=describe_path(g3, leaks[0][2]) if leaks and leaks[0][2] else None)
+  for q, val in (('config.enter_interactive_mode', True), ('config.exit_interactive_mode', False)):
+    f = ctx.func(q)
+    ok = any(isinstance(n, ast.Assign) and u(n.targets[0]) == '_INTERACTIVE_MODE' and isinstance(n.value, ast.Constant) and n.value.value is val
+             for n in walk_local(f.node)) and any(isinstance(n, ast.Global) and '_INTERACTIVE_MODE' in n.names for n in walk_local(f.node))
+    ctx.check(ok, 'C13.interactive', construct(f), 'sets the mode flag to %s' % val, '%s no longer sets the module flag to %s' % (f.name, val), f.loc(), instance='flag')
+
+
+def method_detection(ctx, rule):
+  prog = ctx.prog
   # ---- C13.method-detection: what counts as "a registered method that needs overriding"
   fm = ctx.func('config._find_registered_methods')
   ism = fm.nested.get('is_method')
@@ -190,23 +211,37 @@ def run(ctx):
     miss = facts_imply(facts5[n.id], [('a plain function', 'is_function'), ('defined in the class\'s module', 'same_module'),
                                       ('reachable under its own name on the class', 'is_class_attr'),
                                       ('whose qualified name has the class as parent', 'qualified and qual_parent_is_class')], atom_m)
-    ctx.check(not miss and qdef_ok, 'C13.method-detection', construct(ism),
+    ctx.check(not miss and qdef_ok, rule, construct(ism),
               'a class attribute counts as a method to override only if it is a function of the class\'s module, reachable under its own name, whose __qualname__ parent is the class',
               'is_method accepts attributes that are not methods of the class (missing: %s): a registered helper held as a class attribute makes '
               'Gin build a method-overriding subclass, so instances are no longer exactly the original class (and no longer pickle)'
               % ', '.join(l for l, _ in miss), ism.loc(n.ast), instance='is_method')
 
-  # ---- C13.interactive
-  im = ctx.func('config.interactive_mode')
-  g3 = prog.cfg(im)
-  acq = [n for n in g3.live_nodes() if any(prog.resolve_call(im, c) == 'config.enter_interactive_mode' for c in calls_of_node(n))]
-  rel = [n for n in g3.live_nodes() if any(prog.resolve_call(im, c) == 'config.exit_interactive_mode' for c in calls_of_node(n))]
-  leaks = pair_leaks(g3, [n.id for n in acq], [n.id for n in rel]) if acq else [(None, 'entry', [])]
-  ctx.check(not leaks and acq, 'C13.interactive', construct(im), 'interactive mode is switched off on every exit of the block',
-            'interactive mode stays on when the block exits by %s' % (leaks[0][1] if leaks else ''), im.loc(), sites=len(g3.live_nodes()),
-            path=describe_path(g3, leaks[0][2]) if leaks and leaks[0][2] else None)
-  for q, val in (('config.enter_interactive_mode', True), ('config.exit_interactive_mode', False)):
-    f = ctx.func(q)
-    ok = any(isinstance(n, ast.Assign) and u(n.targets[0]) == '_INTERACTIVE_MODE' and isinstance(n.value, ast.Constant) and n.value.value is val
-             for n in walk_local(f.node)) and any(isinstance(n, ast.Global) and '_INTERACTIVE_MODE' in n.names for n in walk_local(f.node))
-    ctx.check(ok, 'C13.interactive', construct(f), 'sets the mode flag to %s' % val, '%s no longer sets the module flag to %s' % (f.name, val), f.loc(), instance='flag')
+
+
+def inverse_lookup(ctx, rule):
+  """Lookup by object: the registry is consulted for the object itself before
+  any __wrapped__ step (a registered object may itself carry __wrapped__)."""
+  prog = ctx.prog
+  f = ctx.func('config._inverse_lookup')
+  uw = [c for c in walk_local(f.node) if isinstance(c, ast.Call) and u(c.func) == 'inspect.unwrap']
+  ok = False
+  why = 'no registry-aware unwrapping found'
+  for c in uw:
+    stop = [k.value for k in c.keywords if k.arg == 'stop']
+    if stop and isinstance(stop[0], ast.Lambda) and isinstance(stop[0].body, ast.Compare) and isinstance(stop[0].body.ops[0], ast.In) \
+        and u(stop[0].body.comparators[0]) == '_INVERSE_REGISTRY' and u(stop[0].body.left) == stop[0].args.args[0].arg:
+      ok = True
+  loops = [n for n in walk_local(f.node) if isinstance(n, ast.While)]
+  for lp in loops:
+    steps = [b for b in walk_local(lp) if isinstance(b, ast.Assign) and u(b.value).endswith('.__wrapped__')]
+    tested_first = ' not in _INVERSE_REGISTRY' in u(lp.test)
+    if steps and tested_first:
+      ok = True
+    elif steps:
+      why = 'the hand-written unwrap loop steps to `__wrapped__` before testing whether the current object is registered'
+  got = [c for c in walk_local(f.node) if isinstance(c, ast.Call) and u(c.func) == '_INVERSE_REGISTRY.get']
+  ctx.check(ok and got, rule, construct(f),
+            'an object is looked up in the inverse registry before each step along its __wrapped__ chain',
+            'lookup by original object can step over a registered object (%s): a registered function that already carries a functools.wraps '
+            'decorator is no longer found through the original object' % why, f.loc(), instance='registry-aware-unwrap')
